@@ -51,11 +51,13 @@ pub struct Scenario {
     pub panics: Vec<(usize, bool)>,
     /// systems that rendezvous: (ids, k)
     pub rendezvous: Option<(Vec<usize>, u16)>,
+    /// async script (mode Async only): D dispatch, R running, W wait, X wait_without_tl, O world, M world_mut, S setup
+    pub script: Option<String>,
 }
 
 impl Scenario {
     pub fn plain(ops: Vec<Op>, mode: Mode, dispatches: u8) -> Scenario {
-        Scenario { ops, mode, dispatches, user_pool: None, default_threads: None, panics: vec![], rendezvous: None }
+        Scenario { ops, mode, dispatches, user_pool: None, default_threads: None, panics: vec![], rendezvous: None, script: None }
     }
 
     pub fn to_json(&self) -> Value {
@@ -68,6 +70,7 @@ impl Scenario {
             "default_threads": self.default_threads,
             "panics": self.panics.iter().map(|(i, f)| json!([i, f])).collect::<Vec<_>>(),
             "rendezvous": self.rendezvous.as_ref().map(|(ids, k)| json!({"ids": ids, "k": k})),
+            "script": self.script,
         })
     }
 
@@ -90,6 +93,7 @@ impl Scenario {
                     Some((r.get("ids")?.as_array()?.iter().filter_map(|x| x.as_u64().map(|y| y as usize)).collect(), r.get("k")?.as_u64()? as u16))
                 }
             }),
+            script: v.get("script").and_then(|x| x.as_str()).map(|x| x.to_string()),
         })
     }
 }
@@ -110,6 +114,8 @@ pub struct ExecOut {
     pub main_task: u16,
     pub spawn_panics: usize,
     pub pool_lock_ok: bool,
+    /// (world values, borrow state, local counters) after each dispatch
+    pub after: Vec<(Vec<u64>, Vec<u8>, Vec<u64>)>,
 }
 
 impl ExecOut {
@@ -157,7 +163,56 @@ pub fn run_scenario(sc: &Scenario, twin: bool) -> ExecOut {
         out.build_error = Some(format!("builder call {:?} panicked: {}", c.path, c.panic.clone().unwrap()));
         return out;
     }
-    if sc.mode == Mode::Async && !twin {
+    if let (Mode::Async, Some(script), false) = (sc.mode, sc.script.as_ref(), twin) {
+        let world = new_world();
+        let mut ad = reg.builder.build_async(world);
+        let mut script: Vec<char> = script.chars().collect();
+        script.push('O'); // final world(): fetch the results
+        for (k, op) in script.iter().enumerate() {
+            sched_point();
+            ctx.log(Ev::Script, k, 0);
+            let r = catch_unwind(AssertUnwindSafe(|| -> u16 {
+                match op {
+                    'D' => {
+                        ad.dispatch();
+                        0
+                    }
+                    'R' => ad.running() as u16,
+                    'W' => {
+                        ad.wait();
+                        0
+                    }
+                    'X' => {
+                        ad.wait_without_tl();
+                        0
+                    }
+                    'O' => {
+                        let _ = ad.world();
+                        0
+                    }
+                    'M' => {
+                        let _ = ad.world_mut();
+                        0
+                    }
+                    'S' => {
+                        ad.setup();
+                        0
+                    }
+                    _ => 0,
+                }
+            }));
+            match r {
+                Ok(a) => ctx.log(Ev::Script, k, 1 + a),
+                Err(p) => {
+                    ctx.log(Ev::Script, k, 9);
+                    out.results.push(Some(payload_str(&*p)));
+                }
+            }
+        }
+        let w: &shred::World = ad.world();
+        out.values = world_values(w);
+        out.borrow = world_borrow_state(w);
+    } else if sc.mode == Mode::Async && !twin {
         let world = new_world();
         let mut ad = reg.builder.build_async(world);
         for i in 1..=sc.dispatches {
@@ -198,6 +253,9 @@ pub fn run_scenario(sc: &Scenario, twin: bool) -> ExecOut {
             }));
             ctx.log(Ev::DispatchEnd, 0, 0);
             out.results.push(r.err().map(|p| payload_str(&*p)));
+            let bs = world_borrow_state(&world);
+            let vals = if bs.iter().all(|b| *b == 0) { world_values(&world) } else { vec![] };
+            out.after.push((vals, bs, ctx.local.lock().unwrap().clone()));
         }
         out.values = world_values(&world);
         out.borrow = world_borrow_state(&world);
@@ -501,6 +559,104 @@ pub fn analyze(m: &Mon, sc: &Scenario, info: &PlanInfo, out: &ExecOut, twin: Opt
         }
     }
 
+    if m.c14 && expecting_panic && !out.results.is_empty() {
+        // (1) the panic reaches the caller with the payload of a panicking system
+        let began1: Vec<usize> = log.iter().filter(|e| e.dispatch == 1 && is_begin(info, e)).map(|e| e.sys as usize).collect();
+        let reached: Vec<usize> = sc.panics.iter().map(|p| p.0).filter(|id| began1.contains(id)).collect();
+        match &out.results[0] {
+            None => {
+                if !reached.is_empty() {
+                    vs.push(v("C14", "panic-swallowed", format!("system(s) {:?} panicked in dispatch 1 but dispatch returned normally", reached)));
+                }
+            }
+            Some(msg) => {
+                let ok = sc.panics.iter().any(|(id, _)| msg.contains(PANIC_MARK) && msg.ends_with(&format!("sys={}", id)));
+                if !ok && !is_borrow_panic(msg) {
+                    vs.push(v("C14", "foreign-payload", format!("dispatch 1 panicked with {:?}, not the payload of a panicking system {:?}", msg, sc.panics)));
+                }
+            }
+        }
+        // (2) no dependent of a system that panicked ran in that dispatch; nothing ran twice
+        let mut seqs: Vec<Vec<usize>> = vec![info.top.clone()];
+        for n in &info.nodes {
+            if n.kind == Kind::Batch {
+                seqs.push(n.children.clone());
+            }
+        }
+        for seq in &seqs {
+            let mut names: BTreeMap<&str, usize> = BTreeMap::new();
+            for id in seq {
+                let n = &info.nodes[*id];
+                if n.kind != Kind::Tl && !n.name.is_empty() {
+                    names.entry(n.name.as_str()).or_insert(*id);
+                }
+            }
+            // transitive dependents of the systems that panicked
+            let mut tainted: Vec<usize> = reached.iter().copied().filter(|r| seq.contains(r)).collect();
+            let mut changed = true;
+            while changed {
+                changed = false;
+                for id in seq {
+                    if tainted.contains(id) {
+                        continue;
+                    }
+                    if info.nodes[*id].deps.iter().any(|d| names.get(d.as_str()).map_or(false, |a| tainted.contains(a))) {
+                        tainted.push(*id);
+                        changed = true;
+                    }
+                }
+            }
+            for id in &tainted {
+                if !reached.contains(id) && began1.contains(id) {
+                    // inner sequences run `times` per batch run: only meaningful when the dependency panicked before
+                    let first_begin = log.iter().position(|e| e.dispatch == 1 && is_begin(info, e) && e.sys as usize == *id).unwrap();
+                    let dep_panic_pos = reached.iter().filter_map(|r| log.iter().position(|e| e.dispatch == 1 && is_begin(info, e) && e.sys as usize == *r)).min().unwrap_or(0);
+                    if first_begin > dep_panic_pos {
+                        vs.push(v("C14", "dependent-ran-after-panic", format!("system {} depends (transitively) on a system that panicked in dispatch 1 but ran in that dispatch", id)));
+                    }
+                }
+            }
+        }
+        for n in &info.nodes {
+            let cnt = began1.iter().filter(|x| **x == n.id).count() as u32;
+            let max = expected_runs(info, n.id, 1, 1);
+            if cnt > max.max(1) {
+                vs.push(v("C14", "system-ran-twice-in-panicking-dispatch", format!("system {} began {} times in dispatch 1 (at most {} expected)", n.id, cnt, max)));
+            }
+        }
+        // (3) nothing left borrowed
+        if let Some((_, bs, _)) = out.after.first() {
+            if bs.iter().any(|b| *b == 1 || *b == 2) {
+                vs.push(v("C14", "resource-left-borrowed", format!("borrow state after the caught panic: {:?} (0 free, 1 shared, 2 exclusive)", bs)));
+            }
+        }
+        // (4) the next dispatch runs every system exactly once, as if nothing had happened
+        if out.results.len() >= 2 {
+            if let Some(msg) = &out.results[1] {
+                vs.push(v("C14", "next-dispatch-panicked", format!("the dispatch after the caught panic panicked: {}", msg)));
+            } else {
+                let tl = if matches!(sc.mode, Mode::Dispatch | Mode::Async) { 1 } else { 0 };
+                for n in &info.nodes {
+                    let cnt = log.iter().filter(|e| e.dispatch == 2 && is_begin(info, e) && e.sys as usize == n.id).count() as u32;
+                    let exp = expected_runs(info, n.id, 1, tl);
+                    if cnt != exp {
+                        vs.push(v("C14", "next-dispatch-not-exactly-once", format!("system {} ran {} times in the dispatch after the caught panic, expected {}", n.id, cnt, exp)));
+                    }
+                }
+                if let (Some((v1, b1, l1)), Some((v2, _, _))) = (out.after.first(), out.after.get(1)) {
+                    if b1.iter().all(|b| *b == 0) && !v1.is_empty() {
+                        let exp = seq_expectation(sc, v1, l1);
+                        if exp != *v2 {
+                            let has_tl_batch = info.nodes.iter().any(|n| tl_in_batch(info, n.id) && (n.eff_reads | n.eff_writes) != 0);
+                            let sig = if has_tl_batch { "tl-in-batch-not-in-union" } else { "next-dispatch-outcome-differs" };
+                            vs.push(v("C14", sig, format!("world after the dispatch following the panic is {:?}, a sequential dispatch from the same state gives {:?}", v2, exp)));
+                        }
+                    }
+                }
+            }
+        }
+    }
+
     if m.c05 && !expecting_panic {
         if let Some(t) = twin {
             if out.results.iter().all(|r| r.is_none()) && out.digest() != t.digest() {
@@ -508,6 +664,193 @@ pub fn analyze(m: &Mon, sc: &Scenario, info: &PlanInfo, out: &ExecOut, twin: Opt
                 let sig = if has_tl_batch { "tl-in-batch-not-in-union" } else { "outcome-differs-from-sequential" };
                 vs.push(v("C05", sig, format!("final world {:?} / observations differ from the sequential twin {:?}", out.values, t.values)));
             }
+        }
+    }
+    vs
+}
+
+/// World values after one sequential dispatch (dispatch_seq + thread-local
+/// tail if the mode runs it) of a fresh, panic-free twin started from the
+/// given world values and local counters.
+pub fn seq_expectation(sc: &Scenario, values: &[u64], local: &[u64]) -> Vec<u64> {
+    let was = rayon::verif::controlled();
+    rayon::verif::set_controlled(false);
+    let info = PlanInfo::of(&sc.ops);
+    let ctx = Ctx::new(info.n(), Ctx::identity_map());
+    *ctx.local.lock().unwrap() = local.to_vec();
+    let r = (|| {
+        let mut d = build_plan(&sc.ops, &ctx, None).ok()?;
+        let mut w = shred::World::empty();
+        for c in 0..NCONCRETE as u8 {
+            if matches!(c, 0 | 1 | 4) {
+                w.insert_by_id(concrete_id(c), Cell0(values[c as usize]));
+            } else {
+                w.insert_by_id(concrete_id(c), Cell1(values[c as usize]));
+            }
+        }
+        ctx.dispatch_no.store(2, Ordering::Relaxed);
+        d.dispatch_seq(&w);
+        if matches!(sc.mode, Mode::Dispatch | Mode::Async) {
+            d.dispatch_thread_local(&w);
+        }
+        Some(world_values(&w))
+    })();
+    rayon::verif::set_controlled(was);
+    r.unwrap_or_default()
+}
+
+/// C15 oracle over the log of an async script run.
+pub fn analyze_async(sc: &Scenario, info: &PlanInfo, out: &ExecOut) -> Vec<Viol> {
+    let mut vs = Vec::new();
+    for e in &out.errors {
+        vs.push(v("MACHINERY", "harness-error", e.clone()));
+    }
+    if let Some(e) = &out.build_error {
+        vs.push(v("MACHINERY", "scenario-does-not-build", e.clone()));
+        return vs;
+    }
+    for r in out.results.iter().flatten() {
+        vs.push(v("C15", "async-call-panicked", format!("a call of the script panicked: {}", r)));
+    }
+    let script: Vec<char> = sc.script.as_deref().unwrap_or("").chars().chain(std::iter::once('O')).collect();
+    let log = &out.log;
+    let n = info.n();
+    let mut begun = vec![0u32; n];
+    let mut ended = vec![0u32; n];
+    let mut open: Vec<usize> = Vec::new();
+    let mut issued: u32 = 0;
+    let mut in_wait = false;
+    let mut open_at_call = 0usize;
+    let mut unfinished_at_call = false;
+    let stage_nodes: Vec<usize> = info.nodes.iter().filter(|x| !(x.kind == Kind::Tl && x.parent.is_none())).map(|x| x.id).collect();
+    let all_done = |begun: &Vec<u32>, ended: &Vec<u32>, issued: u32| -> Option<usize> {
+        for id in &stage_nodes {
+            let exp = expected_runs(info, *id, issued, 0);
+            let nd = &info.nodes[*id];
+            let e = if nd.kind == Kind::Batch && nd.multi { begun[*id] } else { ended[*id] };
+            if begun[*id] != exp || e != exp {
+                return Some(*id);
+            }
+        }
+        None
+    };
+    // ends of dispatch j per top-level node, for the overtaking check
+    let mut last_end_of_round: Vec<usize> = Vec::new(); // event index of the last top-level end, per round
+    let mut first_begin_of_round: Vec<usize> = Vec::new();
+    for (i, e) in log.iter().enumerate() {
+        let id = e.sys as usize;
+        match e.kind {
+            Ev::Script => {
+                let op = script.get(id).copied().unwrap_or('?');
+                if e.aux == 0 {
+                    // call begins
+                    open_at_call = open.len();
+                    unfinished_at_call = all_done(&begun, &ended, issued).is_some();
+                    if op == 'W' {
+                        in_wait = true;
+                    }
+                } else {
+                    in_wait = false;
+                    if op == 'D' && e.aux != 9 {
+                        issued += 1;
+                    }
+                    let returned_ok = e.aux != 9;
+                    match op {
+                        'W' | 'X' | 'O' | 'M' | 'S' if returned_ok => {
+                            if !open.is_empty() {
+                                vs.push(v("C15", "accessor-returned-while-system-running", format!("call {} ({}) returned while system(s) {:?} were inside their window", id, op, open)));
+                            }
+                            if let Some(x) = all_done(&begun, &ended, issued) {
+                                vs.push(v("C15", "accessor-returned-before-completion", format!("call {} ({}) returned but system {} has run {} / finished {} times after {} dispatches", id, op, x, begun[x], ended[x], issued)));
+                            }
+                        }
+                        'R' if returned_ok => {
+                            let running = e.aux == 2;
+                            if !running {
+                                if !open.is_empty() {
+                                    vs.push(v("C15", "running-false-while-system-running", format!("running() (call {}) returned false while system(s) {:?} were inside their window", id, open)));
+                                }
+                                if let Some(x) = all_done(&begun, &ended, issued) {
+                                    vs.push(v("C15", "running-false-before-completion", format!("running() (call {}) returned false but system {} has run {} / finished {} times after {} dispatches", id, x, begun[x], ended[x], issued)));
+                                }
+                            } else if open_at_call == 0 && !unfinished_at_call {
+                                // everything had finished and been handed back? only a violation if the state had
+                                // already been taken back by an earlier blocking accessor: then nothing can be running
+                                let taken_back = {
+                                    // the previous completed call was a blocking accessor or running()==false and no dispatch since
+                                    let mut tb = false;
+                                    for p in log[..i].iter().rev() {
+                                        if p.kind == Ev::Script && p.aux != 0 && p.sys as usize != id {
+                                            let pop = script.get(p.sys as usize).copied().unwrap_or('?');
+                                            tb = matches!(pop, 'W' | 'X' | 'O' | 'M' | 'S') || (pop == 'R' && p.aux == 1);
+                                            break;
+                                        }
+                                    }
+                                    tb || issued == 0
+                                };
+                                if taken_back {
+                                    vs.push(v("C15", "running-true-when-idle", format!("running() (call {}) returned true although nothing was dispatched since the state was taken back", id)));
+                                }
+                            }
+                        }
+                        _ => {}
+                    }
+                }
+            }
+            _ if is_begin(info, e) => {
+                begun[id] += 1;
+                if info.nodes[id].parent.is_none() && info.nodes[id].kind != Kind::Tl {
+                    let round = begun[id] as usize - 1;
+                    while first_begin_of_round.len() <= round {
+                        first_begin_of_round.push(i);
+                    }
+                }
+                if info.nodes[id].kind == Kind::Tl && info.nodes[id].parent.is_none() {
+                    if !in_wait {
+                        vs.push(v("C15", "tl-outside-wait", format!("thread-local system {} ran outside wait()", id)));
+                    }
+                    if e.task != out.main_task || e.pool != 0 {
+                        vs.push(v("C15", "tl-not-on-caller", format!("thread-local system {} ran in task {} (pool {}), the caller is task {}", id, e.task, e.pool, out.main_task)));
+                    }
+                    if !open.is_empty() {
+                        vs.push(v("C15", "tl-while-system-running", format!("thread-local system {} started while {:?} were running", id, open)));
+                    }
+                }
+            }
+            _ => {}
+        }
+        match e.kind {
+            Ev::Fetched => open.push(id),
+            Ev::Release => {
+                if let Some(p) = open.iter().position(|x| *x == id) {
+                    open.remove(p);
+                }
+            }
+            _ => {}
+        }
+        if is_end(info, e) {
+            ended[id] += 1;
+            if info.nodes[id].parent.is_none() && info.nodes[id].kind != Kind::Tl {
+                let round = ended[id] as usize - 1;
+                while last_end_of_round.len() <= round {
+                    last_end_of_round.push(i);
+                }
+                last_end_of_round[round] = i;
+            }
+        }
+    }
+    // a second dispatch does not start before the previous one is complete
+    for r in 1..first_begin_of_round.len() {
+        if let Some(le) = last_end_of_round.get(r - 1) {
+            if first_begin_of_round[r] < *le {
+                vs.push(v("C15", "dispatch-overtaken", format!("a system of dispatch {} began (event {}) before dispatch {} had finished (event {})", r + 1, first_begin_of_round[r], r, le)));
+            }
+        }
+    }
+    // exactly once per dispatch at the end (the script ends with world())
+    if let Some(x) = all_done(&begun, &ended, issued) {
+        if out.results.iter().all(|r| r.is_none()) {
+            vs.push(v("C15", "not-exactly-once", format!("after the script, system {} has run {} times for {} dispatches", x, begun[x], issued)));
         }
     }
     vs
@@ -572,6 +915,8 @@ pub struct ExploreOpts {
     pub keep_traces: usize,
     /// deadlock is a violation of this property (C11 / C15); None = machinery error
     pub deadlock_prop: Option<&'static str>,
+    /// delay bounding instead of preemption bounding
+    pub delay_mode: bool,
 }
 
 fn trace_key(log: &[Event]) -> Vec<(Ev, u16)> {
@@ -728,7 +1073,7 @@ impl Driver {
         }
         let c = self.cur.as_ref().unwrap();
         let bound = self.opts.bounds[c.bound_i];
-        let cfg = Cfg { bound, all_points: self.opts.all_points, max_execs: self.opts.max_execs, deadline: Some(self.opts.deadline), fixed: None };
+        let cfg = Cfg { bound, all_points: self.opts.all_points, max_execs: self.opts.max_execs, deadline: Some(self.opts.deadline), fixed: None, delay_mode: self.opts.delay_mode };
         let (sc2, info2, twin2, acc2) = (c.sc.clone(), c.info.clone(), c.twin.clone(), c.acc.clone());
         let mon = self.mon;
         let keep = self.opts.keep_traces;
@@ -740,7 +1085,7 @@ impl Driver {
         let pending = c.pending.clone();
         let body = move || {
             let o = run_scenario(&sc2, false);
-            let vs = analyze(&mon, &sc2, &info2, &o, twin2.as_deref());
+            let vs = if sc2.script.is_some() { analyze_async(&sc2, &info2, &o) } else { analyze(&mon, &sc2, &info2, &o, twin2.as_deref()) };
             let mut a = acc2.lock().unwrap();
             if !vs.is_empty() {
                 let choices = sched::current_choices();
@@ -811,12 +1156,12 @@ pub fn replay(sc: &Scenario, choices: &[u16], mon: Mon, all_points: bool) -> (Ve
     let (sc2, r2) = (sc.clone(), res.clone());
     let abn: Arc<Mutex<Option<String>>> = Arc::new(Mutex::new(None));
     let a2 = abn.clone();
-    let cfg = Cfg { bound: u32::MAX, all_points, max_execs: 1, deadline: None, fixed: Some(choices.to_vec()) };
+    let cfg = Cfg { bound: u32::MAX, all_points, max_execs: 1, deadline: None, fixed: Some(choices.to_vec()), delay_mode: false };
     let out = sched::explore(
         &cfg,
         move || {
             let o = run_scenario(&sc2, false);
-            let vs = analyze(&mon, &sc2, &info, &o, twin.as_deref());
+            let vs = if sc2.script.is_some() { analyze_async(&sc2, &info, &o) } else { analyze(&mon, &sc2, &info, &o, twin.as_deref()) };
             let mut r = r2.lock().unwrap();
             r.0 = vs;
             r.1 = o.log.iter().map(|e| e.short()).collect();
